@@ -169,6 +169,11 @@ func (lbc *LoadBalancerController) updateTransportServersStatusFromEvents() erro
 		for _, obj := range nsi.transportServerLister.List() {
 			ts := obj.(*conf_v1.TransportServer)
 
+			if !lbc.HasCorrectIngressClass(ts) {
+				nl.Debugf(lbc.Logger, "Ignoring TransportServer %v based on class %v", ts.Name, ts.Spec.IngressClass)
+				continue
+			}
+
 			events, err := lbc.client.CoreV1().Events(ts.Namespace).List(context.TODO(),
 				meta_v1.ListOptions{FieldSelector: fmt.Sprintf("involvedObject.name=%v,involvedObject.uid=%v", ts.Name, ts.UID)})
 			if err != nil {
